@@ -234,6 +234,9 @@ class Agg(object):
         self.samples = []
         self.harness_errors = []
         self.digests = {}
+        self.known_hits = {}
+        self.known_examples = {}
+        self.n_unknown = 0
 
     def count(self, key, n=1):
         self.counters[key] = self.counters.get(key, 0) + n
@@ -241,8 +244,10 @@ class Agg(object):
     def add_set(self, key, item):
         self.sets.setdefault(key, set()).add(item)
 
-    def add_result(self, res):
-        """res: dict(counters, sets, violations, sample, digest, index)."""
+    def add_result(self, res, findings=()):
+        """res: dict(counters, sets, violations, sample, digest, index).
+        Violations matching a listed known finding are counted per finding
+        (one example kept); all others are kept, up to MAX_VIOLATIONS."""
         self.runs += 1
         for k, v in res.get("counters", {}).items():
             self.count(k, v)
@@ -250,8 +255,15 @@ class Agg(object):
             self.sets.setdefault(k, set()).update(items)
         for v in res.get("violations", []):
             self.n_violations += 1
-            if len(self.violations) < self.MAX_VIOLATIONS:
-                self.violations.append(v)
+            for i, f in enumerate(findings):
+                if matches_finding(v, f):
+                    self.known_hits[i] = self.known_hits.get(i, 0) + 1
+                    self.known_examples.setdefault(i, v)
+                    break
+            else:
+                self.n_unknown += 1
+                if len(self.violations) < self.MAX_VIOLATIONS:
+                    self.violations.append(v)
         if res.get("sample") is not None and (
                 len(self.samples) < self.MAX_SAMPLES):
             self.samples.append(res["sample"])
@@ -276,7 +288,7 @@ class Agg(object):
 
 
 def run_batch(workload, jobs, workers, timeout, keep_digests=False,
-              job_timeout=600.0, stop_on_violation=False):
+              job_timeout=600.0, stop_on_violation=False, findings=()):
     """Run workload.run_job(job) for every job, each in its own child forked
     from the pristine orchestrator, at most `workers` at a time (dynamic
     scheduling: results do not depend on the worker count).  run_job returns a
@@ -333,12 +345,12 @@ def run_batch(workload, jobs, workers, timeout, keep_digests=False,
         if kind == "ok":
             if keep_digests:
                 value["keep_digest"] = True
-            total.add_result(value)
+            total.add_result(value, findings)
         else:
             total.harness_errors.append("%r: %s" % (job, value))
 
     while pending or active:
-        if stop_on_violation and total.n_violations:
+        if stop_on_violation and total.n_unknown:
             pending = []
         while pending and len(active) < workers:
             launch(pending.pop())
